@@ -12,7 +12,7 @@
     all of N and in particular over [0, 2^64)). *)
 From Coq Require Import NArith List Bool Sorting.Sorted Sorting.Permutation.
 From LibaV Require Import C04.VecDefs C04.VecSpec C04.SwapProofs C04.ArrProofs C04.SortProofs C04.VecProofs
-     C04.VecExamples.
+     C04.VecExamples C04.AccDefs C04.AccProofs.
 Import ListNotations.
 Local Open Scope N_scope.
 
@@ -210,3 +210,85 @@ Theorem erase_end_fixed :
     \/ num <= idx.
 Proof. exact fixed_erase_end_spec. Qed.
 Print Assumptions erase_end_fixed.
+
+(** * the rest of the public interface of vec.h / buf.h (C04/AccDefs.v; every function below is called by
+      harness/C04/drv.c after every operation and compared with the extracted definitions)
+
+      unchecked element accessors a_vec_at_ / a_buf_at_, a_vec_top_ / a_buf_top_, a_vec_end_ under their
+      documented preconditions, for EVERY state satisfying the invariant: the 64-bit product does not wrap,
+      the pointer designates a whole slot inside the owned storage, and the checked accessor returns the
+      same pointer (a_vec_of(ctx, -1) is the top element) *)
+Theorem unchecked_at_inside_storage :
+  forall a idx, arr_inv a -> idx < a_mem a ->
+    arr_at_ a idx = a_siz a * idx
+    /\ a_siz a * idx + a_siz a <= a_siz a * a_mem a
+    /\ arr_at a idx = Some (arr_at_ a idx).
+Proof. exact arr_at__spec. Qed.
+Print Assumptions unchecked_at_inside_storage.
+
+Theorem unchecked_top_is_last_element :
+  forall a, arr_inv a -> a_num a <> 0 ->
+    arr_top_ a = a_siz a * (a_num a - 1)
+    /\ arr_top_ a + a_siz a = a_siz a * a_num a
+    /\ arr_top_ a + a_siz a <= a_siz a * a_mem a
+    /\ arr_top a = Some (arr_top_ a)
+    /\ arr_of a (W - 1) = Some (arr_top_ a).
+Proof. exact arr_top__spec. Qed.
+Print Assumptions unchecked_top_is_last_element.
+
+Theorem unchecked_end_is_one_past_last :
+  forall a, arr_inv a ->
+    arr_end_ a = a_siz a * a_num a /\ arr_end_ a <= a_siz a * a_mem a /\ arr_end a = arr_end_ a.
+Proof. exact arr_end__spec. Qed.
+Print Assumptions unchecked_end_is_one_past_last.
+
+(** the verdict both drivers print after every operation (acc=ok) holds in every reachable state *)
+Theorem accessor_verdict_ok :
+  (forall v, vec_inv v -> vec_acc_check v = true) /\ (forall b, buf_inv b -> buf_acc_check b = true).
+Proof. exact (conj vec_acc_check_ok buf_acc_check_ok). Qed.
+Print Assumptions accessor_verdict_ok.
+
+(** aliases a_vec_push / a_vec_pull / a_buf_push / a_buf_pull *)
+Theorem aliases_are_push_back_pull_back :
+  forall cmp h v b x,
+    vec_step cmp h v (OPush x) = vec_step cmp h v (OPushBack x)
+    /\ vec_step cmp h v OPull = vec_step cmp h v OPullBack
+    /\ buf_step cmp h b (OPush x) = buf_step cmp h b (OPushBack x)
+    /\ buf_step cmp h b OPull = buf_step cmp h b OPullBack.
+Proof. exact alias_steps. Qed.
+Print Assumptions aliases_are_push_back_pull_back.
+
+(** ctor / dtor: a_vec_new = a_alloc + a_vec_ctor, a_vec_die = a_vec_dtor + a_alloc(ctx, 0) (same for the
+    buffer), so the history theorems above cover containers built by hand; what ctor establishes and what
+    dtor leaves *)
+Theorem new_die_are_ctor_dtor :
+  (forall h siz, vec_new_by_ctor h siz = vec_new h siz)
+  /\ (forall h siz num, buf_new_by_ctor h siz num = buf_new h siz num)
+  /\ (forall h id v dt, vec_die_by_dtor h id v dt = vec_die h id v dt)
+  /\ (forall h b dt, buf_die_by_dtor h b dt = buf_die h b dt).
+Proof. exact (conj vec_new_by_ctor_eq (conj buf_new_by_ctor_eq (conj vec_die_by_dtor_eq buf_die_by_dtor_eq))). Qed.
+Print Assumptions new_die_are_ctor_dtor.
+
+Theorem vec_ctor_establishes_invariant :
+  forall siz, vec_inv (vec_ctor siz)
+    /\ a_siz (v_arr (vec_ctor siz)) = (if siz =? 0 then 1 else siz)
+    /\ abs (v_arr (vec_ctor siz)) = [] /\ a_mem (v_arr (vec_ctor siz)) = 0.
+Proof. exact vec_ctor_inv. Qed.
+Print Assumptions vec_ctor_establishes_invariant.
+
+Theorem vec_dtor_destroys_all_and_releases :
+  forall h v dt, vec_inv v ->
+    exists h' ev, vec_dtor h v dt = Ok (h', mkVec None (mkArr 0 0 0 []), (if dt then rev (abs (v_arr v)) else []), ev)
+      /\ (h', ev) = match v_ptr v with
+                    | Some p => let '(_, h1, ev1) := a_alloc h (Some p) 0 in (h1, ev1)
+                    | None => (h, []) end.
+Proof. exact vec_dtor_spec. Qed.
+Print Assumptions vec_dtor_destroys_all_and_releases.
+
+Theorem buf_dtor_destroys_all_keeps_capacity :
+  forall b dt, buf_inv b ->
+    exists b', buf_dtor b dt = Ok (b', (if dt then rev (abs (b_arr b)) else []))
+      /\ buf_inv b' /\ b_blk b' = b_blk b /\ abs (b_arr b') = []
+      /\ a_siz (b_arr b') = a_siz (b_arr b) /\ a_mem (b_arr b') = a_mem (b_arr b).
+Proof. exact buf_dtor_spec. Qed.
+Print Assumptions buf_dtor_destroys_all_keeps_capacity.
